@@ -419,7 +419,7 @@ def check(ctx, as_premise=False):
                 obj = b[1]
                 tf = ent.func.qual if ent.kind == "TIMER" else None
                 kinds = {c.split(".")[-1] for c in types(a).class_of(obj, cat.eng, timer_func=tf)}
-                if kinds and "PUBLISH" not in kinds:
+                if kinds and "PUBLISH" not in kinds and not (e.a["op"] == "BitOr" and e.a["val"] == ("const", 0)):     # (|= 0 sets nothing)
                     gated = version_cond(e.conds) is True
                     ctx.ob("S6", "%s DUP bit of a stored %s only under protocol 3.1 (%s)" % (cls_short(cls.qual), "/".join(sorted(kinds)), e.func.split(".")[-1]),
                            gated, where=where(e), function=e.func, construct="%s/dup-gating" % e.func,
